@@ -30,7 +30,7 @@ Fresh == [run |-> 0, mode |-> "none", cthr |-> 0, hasprog |-> FALSE, p |-> NoRun
           live |-> 0, tids |-> << >>, wc |-> << >>, runno |-> 0, rb |-> NoRun,
           owner |-> << >>, nxa |-> 0, nxn |-> 0, nxend |-> FALSE, nxnext |-> 0, nxc |-> 0,
           matchRoots |-> {}, matched |-> {}, finderEnd |-> FALSE, after |-> << >>,
-          crashed |-> FALSE, bound |-> 0, nviol |-> 0, nruns |-> 0, nchecked |-> 0]
+          crashed |-> FALSE, bound |-> 0, big |-> FALSE, dig |-> [n |-> 0, hs |-> 0, hu |-> 0, sum |-> 0, mink |-> -1], nviol |-> 0, nruns |-> 0, nchecked |-> 0]
 
 Get(f, x, d) == IF x \in DOMAIN f THEN f[x] ELSE d
 Put(f, x, v) == IF x \in DOMAIN f THEN [f EXCEPT ![x] = v] ELSE f @@ (x :> v)
@@ -64,10 +64,10 @@ NoEager(p) == EagerStages(p) = {}
 (***************************************************************************)
 InitRun(ev) ==
   LET p == ev.p
-      fpe == FullPerElem(p)
+      fpe == IF IsBig(p) THEN <<>> ELSE FullPerElem(p)
       out == OutOf(fpe)
       fc == CallsOf(fpe)
-  IN  [Fresh EXCEPT !.run = ev.run, !.mode = ev.mode, !.cthr = ev.cthr, !.hasprog = TRUE, !.p = p,
+  IN  [Fresh EXCEPT !.big = IsBig(p), !.dig = IF IsBig(p) THEN BigDigest(p) ELSE Fresh.dig, !.run = ev.run, !.mode = ev.mode, !.cthr = ev.cthr, !.hasprog = TRUE, !.p = p,
                     !.out = out, !.fcalls = fc, !.callbag = BagOfSeq(fc),
                     !.lin = (ev.mode # "free"),
                     !.seqmode = IsSequential(FinalParams(p)),
@@ -152,6 +152,14 @@ ResultOK(a, ev) ==
       fm == FirstMatch(p, out)
       mink == MinOfSet({out[i].k : i \in 1..Len(out)})
   IN  CASE ev.kind = "panic" -> FALSE
+        [] a.big -> (CASE k \in CollectTerms /\ PrefixPairs(p) = <<>> ->
+                            ev.kind = "col" /\ ev.n = a.dig.n /\ ev.hs = a.dig.hs /\ ev.hu = a.dig.hu
+                       [] k = "collect_x" -> ev.kind = "col" /\ ev.n = a.dig.n /\ ev.hu = a.dig.hu
+                       [] k = "count" -> ev.kind = "cnt" /\ ev.n = a.dig.n
+                       [] k = "reduce" /\ p.term.op = "add" ->
+                            ev.kind = "opt" /\ (IF a.dig.n = 0 THEN ev.found = 0
+                                                ELSE ev.found = 1 /\ ev.rv[1] = a.dig.sum /\ ev.rk[1] = a.dig.mink)
+                       [] OTHER -> TRUE)
         [] k \in CollectTerms -> ev.kind = "col" /\ EvPairs(ev) = PrefixPairs(p) \o Pairs(out)
         [] k = "collect_x" -> ev.kind = "col" /\ BagEq(BagOfSeq(EvPairs(ev)), BagOfSeq(Pairs(out)))
         [] k = "count" -> ev.kind = "cnt" /\ ev.n = Len(out)
@@ -211,15 +219,15 @@ C03_ReduceAll(a, ev, b) ==
 C04_Count(a, ev, b) ==
   Normal(a, ev) /\ a.p.term.k = "count" => ResultOK(a, ev)
 C04_ForEach(a, ev, b) ==
-  Normal(a, ev) /\ a.p.term.k = "for_each" =>
+  Normal(a, ev) /\ a.p.term.k = "for_each" /\ ~a.big =>
      ev.kind = "unit" /\ BagEq(BagOfSeq(StageSub(a.fcalls, TermStage)),
                                [c \in {x \in DOMAIN a.calls : x[1] = TermStage} |-> a.calls[c]])
 
 C05_NeverMoreThanSequential(a, ev, b) ==
-  ev.e = "call" /\ ev.s # KeyStage /\ ~IsInf(a.p) =>
+  ev.e = "call" /\ ev.s # KeyStage /\ ~IsInf(a.p) /\ ~a.big =>
      BagCount(b.calls, <<ev.s, ev.k, ev.v>>) <= BagCount(a.callbag, <<ev.s, ev.k, ev.v>>)
 C05_ExactlySequential(a, ev, b) ==
-  Normal(a, ev) /\ ev.kind # "panic" /\ a.p.term.k \in FullTerms => BagEq(a.calls, a.callbag)
+  Normal(a, ev) /\ ev.kind # "panic" /\ a.p.term.k \in FullTerms /\ ~a.big => BagEq(a.calls, a.callbag)
 C05_NoReentrancy(a, ev, b) == ev.e # "reent"
 C05_SourceInOrder(a, ev, b) == ev.e = "nx" /\ ev.pos >= 0 => ev.pos = a.nxnext
 
@@ -244,7 +252,7 @@ C08_SequentialOnCaller(a, ev, b) ==
 C09_SequentialValue(a, ev, b) ==
   Normal(a, ev) /\ a.seqmode /\ a.p.term.k # "collect_x" => ResultOK(a, ev)
 C09_StageOrder(a, ev, b) ==
-  Normal(a, ev) /\ a.seqmode /\ ev.kind # "panic" /\ ~IsInf(a.p) =>
+  Normal(a, ev) /\ a.seqmode /\ ev.kind # "panic" /\ ~IsInf(a.p) /\ ~a.big =>
      \A s \in CallStages(a) :
         IF a.p.term.k \in FullTerms
         THEN StageSub(a.allcalls, s) = StageSub(a.fcalls, s)
